@@ -1,8 +1,389 @@
 import Karp.Driver.Proto
+import Karp.Model.Budget
+import Karp.Spec.BudgetWindow
+import Karp.Spec.Cron
+
+/-!
+Driver for C05.  Ops:
+
+* `c05.active`   — `Budget.IsActive` / `GetAllowedDisruptions` of one budget at one instant
+* `c05.allowed`  — `NodePool.GetAllowedDisruptionsByReason` / `MustGetAllowedDisruptions`
+* `c05.reasons`  — the same, on budget lists with a non-nil empty `reasons` list (known finding C05-empty-reasons)
+* `c05.mapping`  — `disruption.BuildDisruptionBudgetMapping` on a cluster
+* `c05.select`   — one method's `ComputeCommands` (+ its real validator) on a cluster
+* `c05.rounds`   — histories through the real `Controller.Reconcile` with the real orchestration queue
+
+The cron parameter of the model is instantiated with the answers the real `robfig/cron` gave for exactly the
+`(schedule, checkpoint)` pairs the code asks (table `cron` in the implementation's output); `allowed` also says whether
+those answers satisfy the cron specification (`Spec/Cron.lean`: same strings parse, `Next` = least activation after).
+-/
 
 namespace Karp.Driver.C05
-open Lean Karp.Driver
+open Lean Karp.Driver Karp.Budget
+open Karp.Spec.BudgetWindow
 
-def handle : Handler := fun op _ _ => .error s!"unknown op {op}"
+/-! ### decoding -/
+
+def nsPerMin : Int := 60000000000
+
+def parseBudget (j : Json) : Except String Budget := do
+  let reasons ← match fldOpt j "reasons" with
+    | none => pure none
+    | some v => do pure (some (← strList v))
+  let nodes ← strF j "nodes"
+  let schedule ← strO j "schedule"
+  let dur ← intO j "durationMin"
+  pure { reasons := reasons, nodes := nodes.toList, schedule := schedule, duration := dur.map (· * nsPerMin) }
+
+def parseBudgets (j : Json) (k : String) : Except String (List Budget) := do
+  (← arrD j k).mapM parseBudget
+
+structure CronEntry where
+  s    : String
+  t    : Int
+  ok   : Bool
+  next : Option Int
+
+def parseCronTable (impl : Json) : Except String (List CronEntry) := do
+  (← arrD impl "cron").mapM (fun e => do
+    pure { s := ← strF e "s", t := ← intF e "t", ok := ← boolF e "ok", next := ← intO e "next" })
+
+/-- the model's cron parameter, from what the real library answered -/
+def cronOf (tbl : List CronEntry) : Cron := fun s =>
+  let es := tbl.filter (fun e => e.s == s)
+  if es.isEmpty || es.any (fun e => !e.ok) then none
+  else some (fun t => match es.find? (fun e => e.t == t) with
+    | some e => e.next
+    | none => none)
+
+/-- how far the least-activation claim of `Next` is checked, in minutes -/
+def scanMinutes : Int := 1500
+
+/-- does the library's answer satisfy the cron specification? -/
+def cronEntryOK (e : CronEntry) : Bool :=
+  match Karp.Spec.Cron.parse e.s with
+  | none => !e.ok
+  | some sc =>
+    e.ok &&
+    (match e.next with
+     | some h =>
+       Karp.Spec.Cron.hit sc h && decide (e.t < h) &&
+       !((minuteMultiples e.t (min (h - 1) (e.t + scanMinutes * nsPerMin))).any (Karp.Spec.Cron.hit sc))
+     | none => !((minuteMultiples e.t (e.t + scanMinutes * nsPerMin)).any (Karp.Spec.Cron.hit sc)))
+
+def cronTableOK (tbl : List CronEntry) : Bool × String :=
+  match tbl.find? (fun e => !cronEntryOK e) with
+  | none => (true, "")
+  | some e => (false, s!"cron library disagrees with the cron specification for schedule {repr e.s} after t={e.t}: ok={e.ok} next={repr e.next}")
+
+def jCron (tbl : List CronEntry) : Json :=
+  jArr (tbl.map (fun e => jObj [("s", jStr e.s), ("t", jInt e.t), ("ok", jBool e.ok), ("next", jOptInt e.next)]))
+
+def hitOf : HitOf := Karp.Spec.Cron.hitOf
+
+/-- admission precondition on `nodes` (CRD pattern): `<digits>` or `<digits>%` -/
+def nodesAdmissible (bs : List Budget) : Bool := bs.all (fun b => nodesSpec b.nodes != .malformed)
+
+/-! ### c05.active -/
+
+def opActive (inp impl : Json) : Except String Resp := do
+  let b ← parseBudget (← fld inp "budget")
+  let now ← intF inp "nowNs"
+  let total ← intF inp "numNodes"
+  let tbl ← parseCronTable impl
+  let cron := cronOf tbl
+  let act := isActive cron b now
+  let ba := budgetAllowed cron b now total
+  let model := jObj [
+    ("active", jBool (act == some true)), ("err", jBool act.isNone),
+    ("allowed", jInt ba.1), ("allowedErr", jBool ba.2), ("cron", jCron tbl)]
+  let (cok, cwhy) := cronTableOK tbl
+  -- the property on what the real code answered
+  let iActive ← boolF impl "active"
+  let iErr ← boolF impl "err"
+  let iAllowed ← intF impl "allowed"
+  let iAllowedErr ← boolF impl "allowedErr"
+  let noneCase := tbl.any (fun e => e.ok && e.next.isNone)
+  let mal := malformed hitOf b
+  let sAct := active hitOf b now
+  let schedMal := match b.schedule with | none => false | some s => (hitOf s).isNone
+  let (ok, why) :=
+    if schedMal then
+      if iErr && iAllowedErr && iAllowed == 0 then (true, "")
+      else (false, "a budget with an unreadable schedule must be reported as an error and allow 0")
+    else if iErr then
+      -- failing closed on a readable schedule is on the safe side (e.g. a duration without a schedule)
+      if iAllowed == 0 then (true, "") else (false, "IsActive reports an error but the budget does not allow 0")
+    else if sAct && !iActive then (false, "the instant lies in [hit, hit+duration) of some activation but IsActive is false")
+    else if !sAct && iActive && !noneCase then (false, "no activation h with h ≤ now < h+duration, yet IsActive is true")
+    else if !iActive then
+      (true, "")
+    else if b.nodes.head? == some '+' || b.nodes.head? == some '-' then
+      (true, "")   -- a signed value is outside the admission pattern: judged by the model comparison only
+    else if mal then
+      if iAllowed ≤ 0 then (true, "") else (false, "an active budget with a malformed `nodes` value must allow 0")
+    else if nodesSpec b.nodes == .malformed then (true, "")
+    else if total < 0 then (true, "")
+    else if iAllowed > (limit b total.toNat : Int) then
+      (false, s!"active budget allows {iAllowed}, more than its limit {limit b total.toNat}")
+    else if (limit b total.toNat : Int) ≤ 2147483647 && iAllowed != (limit b total.toNat : Int) then
+      (false, s!"active budget allows {iAllowed}, but its count / percentage rounded up is {limit b total.toNat}")
+    else (true, "")
+  pure { model := some model, allowed := some cok, spec := some ok, why := if cok then why else cwhy }
+
+/-! ### c05.allowed -/
+
+def opAllowed (inp impl : Json) : Except String Resp := do
+  let bs ← parseBudgets inp "budgets"
+  let now ← intF inp "nowNs"
+  let total ← intF inp "numNodes"
+  let reason ← strF inp "reason"
+  let tbl ← parseCronTable impl
+  let cron := cronOf tbl
+  let r := allowedByReason cron bs now total reason
+  let must := mustAllowed cron bs now total reason
+  let per := bs.map (fun b => let x := budgetAllowed cron b now total; jObj [("val", jInt x.1), ("err", jBool x.2)])
+  let model := jObj [("byReason", jInt r.1), ("err", jBool r.2), ("must", jInt must), ("per", jArr per), ("cron", jCron tbl)]
+  let (cok, cwhy) := cronTableOK tbl
+  let iMust ← intF impl "must"
+  let (spec, why) :=
+    if total < 0 then (none, "")
+    else if nodesAdmissible bs then
+      let s := specAllowed hitOf bs now total.toNat reason
+      if leAllowed iMust s then (some true, "")
+      else (some false, s!"MustGetAllowedDisruptions = {iMust} for reason {reason}, but the most restrictive active budget allows {repr s}")
+    else
+      -- outside the admission precondition on `nodes`: only the fail-closed part is judged
+      if bs.any (fun b => nodesSpec b.nodes == .malformed && !(b.nodes.head? == some '+' || b.nodes.head? == some '-') && active hitOf b now) then
+        if iMust ≤ 0 then (some true, "") else (some false, "an active budget with a malformed `nodes` value must make the pool allow 0")
+      else (none, "")
+  pure { model := some model, allowed := some cok, spec := spec, why := if cok then why else cwhy }
+
+/-! ### clusters -/
+
+def parseNode (j : Json) : Except String Node := do
+  let unmanaged ← boolD j "unmanaged" false
+  let ready ← boolD j "ready" false
+  let readyMissing ← boolD j "readyMissing" false
+  let marked ← boolD j "marked" false
+  let deleting ← boolD j "deleting" false
+  pure {
+    name := ← strF j "name", pool := ← strF j "pool",
+    managed := !unmanaged, initialized := ← boolD j "initialized" false,
+    terminating := ← boolD j "terminating" false,
+    ready := ready && !readyMissing,
+    -- "being deleted": marked by an in-flight command, or the NodeClaim has a deletion timestamp
+    marked := marked || deleting }
+
+structure PoolIn where
+  pool      : Pool
+  unmanaged : Bool
+  static    : Bool
+  replicas  : Int
+  nodeLimit : Int
+
+def parsePool (j : Json) : Except String PoolIn := do
+  pure {
+    pool := { name := ← strF j "name", budgets := ← parseBudgets j "budgets" },
+    unmanaged := ← boolD j "unmanaged" false,
+    static := ← boolD j "static" false,
+    replicas := (← intO j "replicas").getD 0,
+    nodeLimit := (← intO j "nodeLimit").getD (-1) }
+
+def sortPairs (l : List (String × Nat)) : List (String × Nat) := (l.toArray.qsort (fun a b => a.1 < b.1)).toList
+
+def jPairs (l : List (String × Nat)) : Json := jArr ((sortPairs l).map (fun (k, v) => jArr [jStr k, jNat v]))
+
+def parsePairs (j : Json) : Except String (List (String × Nat)) := do
+  (← asArr j).mapM (fun e => do
+    match ← asArr e with
+    | [k, v] => pure (← asStr k, ← asNat v)
+    | _ => throw "bad pair")
+
+/-! ### c05.mapping -/
+
+def opMapping (inp impl : Json) : Except String Resp := do
+  let pools ← (← arrF inp "pools").mapM parsePool
+  let nodes ← (← arrF inp "nodes").mapM parseNode
+  let now ← intF inp "nowNs"
+  let reason ← strF inp "reason"
+  let tbl ← parseCronTable impl
+  let cron := cronOf tbl
+  let managed := (pools.filter (fun p => !p.unmanaged)).map (·.pool)
+  let m := buildMapping cron managed nodes now reason
+  let model := jObj [("mapping", jPairs m), ("cron", jCron tbl)]
+  let (cok, cwhy) := cronTableOK tbl
+  let im ← parsePairs (← fld impl "mapping")
+  let remaining : String → Nat := fun k => (im.lookup k).getD 0
+  let (spec, why) :=
+    if managed.all (fun p => nodesAdmissible p.budgets) then
+      match managed.find? (fun p => !poolBoundOK hitOf p nodes now reason (remaining p.name)) with
+      | none => (some true, "")
+      | some p => (some false, s!"pool {p.name}: the mapping allows {remaining p.name} more disruptions for {reason} with {alreadyDisrupting nodes p.name} of its {poolSize nodes p.name} initialized nodes already not ready or being deleted, but the most restrictive active budget allows {repr (specAllowed hitOf p.budgets now (poolSize nodes p.name) reason)}")
+    else (none, "")
+  pure { model := some model, allowed := some cok, spec := spec, why := if cok then why else cwhy }
+
+/-! ### c05.select -/
+
+def methodOf (s : String) : Except String Method :=
+  match s with
+  | "emptiness" => pure .emptiness
+  | "static" => pure .staticDrift
+  | "drift" => pure .drift
+  | "multi" => pure .multi
+  | "single" => pure .single
+  | _ => throw s!"bad method {s}"
+
+/-- the world after the mutations the harness applies while the validator "waits" -/
+def applyLater (nodes : List Node) (later : Json) : Except String (List Node × Int × List String) := do
+  let notReady ← (← arrD later "notReady").mapM asStr
+  let mark ← (← arrD later "mark").mapM asStr
+  let nominate ← (← arrD later "nominate").mapM asStr
+  let adv ← match fldOpt later "advanceSec" with | none => pure 0 | some v => asInt v
+  let nodes' := nodes.map (fun n =>
+    { n with ready := n.ready && !notReady.contains n.name, marked := n.marked || mark.contains n.name })
+  pure (nodes', adv * 1000000000, nominate)
+
+def countIn (nodes : List Node) (pool : String) (names : List String) : Nat := selectedIn nodes pool names
+
+def opSelect (inp impl : Json) : Except String Resp := do
+  let pools ← (← arrF inp "pools").mapM parsePool
+  let nodes ← (← arrF inp "nodes").mapM parseNode
+  let now ← intF inp "nowNs"
+  let method ← methodOf (← strF inp "method")
+  let reason := method.reason
+  let nop := ((← strO inp "validator").getD "real") == "nop"
+  let later := if nop then Json.mkObj [] else (fldOpt inp "later").getD (Json.mkObj [])
+  let (nodesL, advNs, nominated) ← applyLater nodes later
+  let laterNoop := advNs == 0 && nodesL == nodes && nominated.isEmpty
+  let tbl ← parseCronTable impl
+  let cron := cronOf tbl
+  let (cok, cwhy) := cronTableOK tbl
+  let managed := (pools.filter (fun p => !p.unmanaged)).map (·.pool)
+  -- what the real code did
+  let iMap ← parsePairs (← fld impl "mapping")
+  let cands ← strList (← fld impl "candidates")
+  let cmds ← listOf strList (← fld impl "commands")
+  let validated ← boolD impl "validated" false
+  let accepted := cmds.flatten
+  -- per node: (pods, driftedAgoSec)
+  let extras ← (← arrF inp "nodes").mapM (fun j => do
+    pure ((← strF j "name"), (((← natO j "pods").getD 0), ((← intO j "driftedAgoSec").getD 0))))
+  let statics ← (← arrD impl "static").mapM (fun j => do
+    pure ((← strF j "pool"), ((← intF j "running"), (← intF j "deleting"), (← intF j "pending"))))
+  let m := buildMapping cron managed nodes now reason
+  let mL := buildMapping cron managed nodesL (now + advNs) reason
+  let mf : Mapping := Mapping.ofList m
+  let mLf : Mapping := Mapping.ofList mL
+  -- the model relation (budget accounting given the candidate set the real code computed)
+  let mappingEq := sortPairs m == sortPairs iMap
+  let sub := accepted.all (fun a => cands.contains a) && accepted.eraseDups.length == accepted.length
+  let perPool (f : String → Nat → Nat → Bool) : Bool :=
+    managed.all (fun p => f p.name (countIn nodes p.name accepted) (countIn nodes p.name cands))
+  let validatedMethod := !nop && (method == .emptiness || method == .multi || method == .single)
+  let laterBound := !validatedMethod || !validated || perPool (fun p k _ => k ≤ mLf p)
+  let rel : Bool × String :=
+    if !mappingEq then (false, "mapping differs from the model")
+    else if !sub then (false, "an accepted node is not a candidate, or is accepted twice")
+    else if !laterBound then (false, "accepted more than the mapping rebuilt at validation time")
+    else match method with
+      | .emptiness =>
+        if cmds.length > 1 then (false, "emptiness returned more than one command")
+        else if laterNoop then
+          (perPool (fun p k c => k == min (mf p) c), "emptiness must take min(mapping, empty candidates) of each pool")
+        else (perPool (fun p k c => k ≤ min (mf p) c), "emptiness took more than min(mapping, candidates)")
+      | .multi =>
+        if cmds.length > 1 then (false, "multi returned more than one command")
+        else (perPool (fun p k c => k ≤ min (mf p) c) && accepted.length != 1, "multi took more than min(mapping, candidates), or a single node")
+      | .single =>
+        if accepted.length > 1 then (false, "more than one candidate")
+        else (perPool (fun p k _ => k == 0 || mf p != 0), "candidate of a pool whose mapping is 0")
+      | .drift =>
+        if accepted.length > 1 then (false, "more than one candidate")
+        else if !perPool (fun p k _ => k == 0 || mf p != 0) then (false, "candidate of a pool whose mapping is 0")
+        else
+          -- empty candidates come first, oldest drift first; an empty candidate always passes the simulation
+          let poolOf (n : String) : String := match nodes.find? (fun x => x.name == n) with | some x => x.pool | none => ""
+          let eligible := cands.filter (fun c => mf (poolOf c) != 0 && (extras.lookup c).map (·.1) == some 0)
+          match eligible with
+          | [] => (true, "")
+          | e :: es =>
+            let ago (n : String) : Int := ((extras.lookup n).map (·.2)).getD 0
+            let best := es.foldl (fun b c => if ago c > ago b then c else b) e
+            (accepted == [best], s!"drift must pick the empty candidate that drifted first among pools with budget ({best})")
+      | .staticDrift =>
+        if cmds.any (fun c => c.length != 1) then (false, "static drift commands have exactly one candidate")
+        else
+          let exact := pools.all (fun p =>
+            p.unmanaged || (
+              let k := countIn nodes p.pool.name accepted
+              let c := countIn nodes p.pool.name cands
+              match statics.find? (fun s => s.1 == p.pool.name) with
+              | none => k == 0
+              | some (_, running, deleting, pending) =>
+                let limit : Int := if p.nodeLimit < 0 then 9223372036854775807 else p.nodeLimit
+                k == staticCount (mf p.pool.name) c (decide ((running + pending : Int) > p.replicas)) (limit - (running + deleting + pending : Int))))
+          (exact, "static drift must disrupt exactly staticCount(mapping, candidates, replicas, node limit) nodes of each pool")
+  let relOk := rel.1
+  -- the property on what the real code accepted: bound on the world the budget was last computed on
+  let (dNodes, dNow) := if validatedMethod && validated then (nodesL, now + advNs) else (nodes, now)
+  let (spec, why) :=
+    if managed.all (fun p => nodesAdmissible p.budgets) then
+      match managed.find? (fun p => !poolBoundOK hitOf p dNodes dNow reason (countIn nodes p.name accepted)) with
+      | none => (some true, "")
+      | some p => (some false, s!"{reason}: {countIn nodes p.name accepted} node(s) of pool {p.name} newly selected with {alreadyDisrupting dNodes p.name} of its {poolSize dNodes p.name} initialized nodes already not ready or being deleted; the most restrictive active budget allows {repr (specAllowed hitOf p.budgets dNow (poolSize dNodes p.name) reason)}")
+    else (none, "")
+  let okAll := cok && relOk
+  pure { allowed := some okAll, spec := spec,
+         why := if spec == some false then why else if !cok then cwhy else if !relOk then rel.2 else why,
+         extra := some (jObj [("modelMapping", jPairs m), ("modelLaterMapping", jPairs mL)]) }
+
+/-! ### c05.rounds -/
+
+def opRounds (inp impl : Json) : Except String Resp := do
+  let pools ← (← arrF inp "pools").mapM parsePool
+  let tbl ← parseCronTable impl
+  let cron := cronOf tbl
+  let (cok, cwhy) := cronTableOK tbl
+  let managed := (pools.filter (fun p => !p.unmanaged)).map (·.pool)
+  let rounds ← arrD impl "rounds"
+  let mut relWhy := ""
+  let mut specWhy := ""
+  let adm := managed.all (fun p => nodesAdmissible p.budgets)
+  let mut idx := 0
+  for r in rounds do
+    let nodes ← (← arrF r "nodes").mapM parseNode
+    let now ← intF r "nowNs"
+    let cmds ← arrD r "commands"
+    -- all commands of one reconcile come from one method, hence one reason
+    for c in cmds do
+      let reason ← strF c "reason"
+      let names ← strList (← fld c "names")
+      let m : Mapping := Mapping.ofList (buildMapping cron managed nodes now reason)
+      -- commands of the same reconcile and reason share the mapping
+      let sameReason ← cmds.filterM (fun c' => do pure ((← strF c' "reason") == reason))
+      let all := (← sameReason.mapM (fun c' => do strList (← fld c' "names"))).flatten
+      for p in managed do
+        let k := selectedIn nodes p.name all
+        if k > m p.name && relWhy.isEmpty then
+          relWhy := s!"round {idx}: {k} nodes of pool {p.name} accepted for {reason}, the model mapping allows {m p.name}"
+        if adm && !poolBoundOK hitOf p nodes now reason k && specWhy.isEmpty then
+          specWhy := s!"round {idx}, {reason}: {k} node(s) of pool {p.name} newly accepted ({names}) with {alreadyDisrupting nodes p.name} of its {poolSize nodes p.name} initialized nodes already not ready or being deleted; the most restrictive active budget allows {repr (specAllowed hitOf p.budgets now (poolSize nodes p.name) reason)}"
+      if names.any (fun n => nodes.any (fun x => x.name == n && x.marked)) && relWhy.isEmpty then
+        relWhy := s!"round {idx}: a node already marked for deletion was accepted again"
+    idx := idx + 1
+  let relOk := relWhy.isEmpty
+  pure { allowed := some (cok && relOk), spec := if adm then some specWhy.isEmpty else none,
+         why := if !specWhy.isEmpty then specWhy else if !cok then cwhy else if !relOk then relWhy else specWhy }
+
+def handle : Handler := fun op inp impl =>
+  match op with
+  | "c05.active" => opActive inp impl
+  | "c05.allowed" => opAllowed inp impl
+  | "c05.reasons" => opAllowed inp impl
+  | "c05.mapping" => opMapping inp impl
+  | "c05.select" => opSelect inp impl
+  | "c05.rounds" => opRounds inp impl
+  | _ => .error s!"unknown op {op}"
 
 end Karp.Driver.C05
